@@ -1323,9 +1323,19 @@ def monitor_c11(se, stats):
     of what was sent, and the snapshot still answers. (A crash of the process is reported by the session runner.)"""
     viol = []
     last_raw = None
+    deaf = set()     # clients that have stopped reading their socket: the broker cannot go quiet while it has something for them
     for i, st in enumerate(se["steps"]):
         f = st["op"].split()
-        if st["snap"] == ["WEDGED"] or "WEDGED" in (st.get("note") or "") or "TIMEOUT" in (st.get("note") or ""):
+        if f[0] == "DEAF":
+            (deaf.add if f[2] == "1" else deaf.discard)(f[1])
+            last_raw = st["op"]
+        if f[0] in ("DROP", "CLOSE") and f[1] in deaf:
+            deaf.discard(f[1])
+        # with a deaf client the broker does not go quiet (TIMEOUT) and the deep snapshot, which reads every consumer's
+        # status, waits behind the cancel of the deaf consumer: what counts then is whether the broker still serves the
+        # shallow snapshot (note WEDGED if not) and the canary
+        note = st.get("note") or ""
+        if "WEDGED" in note or (not deaf and (st["snap"] == ["WEDGED"] or "TIMEOUT" in note)):
             viol.append({"step": i, "kind": "wedged", "what": "the broker stopped answering after `%s` (%s); last hostile input: %s" % (st["op"], st.get("note"), last_raw)})
             break
         if "ADMIN-PANIC" in (st.get("note") or ""):
